@@ -12,6 +12,10 @@ OUTSIDE = ["more than 5 pool LRUs, more than 2 free requests after the template"
 TPL = [["page", 0, False], ["links", [[1, 2], [1, 2], [3, 2], [2, 2], [3, 1], [2, 0]]], ["we", [[0, 3]]]]
 
 
+STR_POOL = [["s:http|", "h:com|", "h:caf\u00e9|"], ["s:http|", "h:com|", "h:caf\u00e9|", "p:a|"], ["s:http|", "h:com|", "h:caf\u00e9|", "p:a|", "p:\u65e5|"],
+            ["s:http|", "h:org|", "h:x|", "p:z|"]]
+
+
 def levels(tier):
     if tier == "quick":
         return [
@@ -19,6 +23,9 @@ def levels(tier):
              "ks": [1, 2, 3, 5], "depths": [None, 0, 1, 2]},
             {"name": "n2", "n": 2, "alphabet": ["links", "we"], "links_batch": 1, "defaults": ["domain"], "pool": [POOL4[0], POOL4[1], POOL4[3]],
              "ks": [1, 2], "depths": [None, 0]},
+            {"name": "str-prefixes", "n": 1, "concrete": STR_POOL, "as_str": True, "str_prefixes": True,
+             "prelude": [["page", 0, False], ["links", [[1, 2], [3, 2], [3, 1], [2, 0]]], ["we", [[0, 3]]]],
+             "alphabet": ["links", "page"], "links_batch": 1, "defaults": ["never"], "ks": [1, 2, 3], "depths": [None, 1]},
             {"name": "nested-prefixes", "n": 1, "prelude": [["page", 0, False], ["links", [[3, 2], [0, 2], [3, 1], [2, 0]]], ["we", [[0, 3], [1, 4]]]],
              "alphabet": ["links", "page"], "links_batch": 1, "defaults": ["never"], "ks": [1, 2, 3], "depths": [None, 1]},
         ]
@@ -72,7 +79,10 @@ def battery(E, t, h, P):
             E.reach("depth-limit")
             continue
         cand.append(i)
-    ok, got = E.call("get_webentity_most_linked_pages", t.get_webentity_most_linked_pages, weid, list(prefix_lrus),
+    args = list(prefix_lrus)
+    if P.get("str_prefixes"):
+        args = [bytes(getattr(x, "items", x)).decode("utf-8") for x in args]     # the API accepts str and UTF-8-encodes it
+    ok, got = E.call("get_webentity_most_linked_pages", t.get_webentity_most_linked_pages, weid, args,
                      pages_count=k, max_depth=depth)
     E.check(ok, "most_linked:refused")
     if len(cand) > k:
